@@ -29,6 +29,10 @@ func TestGolden(t *testing.T) {
 			t.Errorf("%s: %v", f, err)
 			continue
 		}
+		if len(lastFailed) > 0 {
+			t.Errorf("%s: not translated: %v", f, lastFailed)
+			continue
+		}
 		golden := strings.TrimSuffix(f, ".go") + ".golden"
 		if *update {
 			if err := os.WriteFile(golden, []byte(text), 0o644); err != nil {
@@ -82,20 +86,25 @@ func TestRejects(t *testing.T) {
 		}
 		re := regexp.MustCompile(strings.TrimPrefix(first, "// want: "))
 		_, _, _, err := translateSource(f, "")
+		msg := ""
+		if err != nil {
+			msg = err.Error()
+		} else {
+			for _, m := range lastFailed { // a function outside the subset is recorded, the rest of the file is translated
+				msg += m + "\n"
+			}
+		}
 		switch {
-		case err == nil:
+		case msg == "":
 			t.Errorf("%s: accepted, but it is outside the subset (want rejection matching %q)", f, re)
-		case !re.MatchString(err.Error()):
-			t.Errorf("%s: rejected with %q, want a message matching %q", f, err, re)
-		case !strings.Contains(err.Error(), filepath.Base(f)+":"):
-			t.Errorf("%s: rejection %q does not carry file:line", f, err)
+		case !re.MatchString(msg):
+			t.Errorf("%s: rejected with %q, want a message matching %q", f, msg, re)
+		case !strings.Contains(msg, filepath.Base(f)+":"):
+			t.Errorf("%s: rejection %q does not carry file:line", f, msg)
 		}
 	}
 }
 
-// TestGoldenCompiles (only with XLATE_LEAN=1, i.e. in the thorough tier): every golden file is valid Lean, and the
-// concrete evaluations in testdata/ok_*.check — values observed by running the snippet with the Go compiler — hold
-// of the translated definitions (kernel `decide`).
 func TestGoldenCompiles(t *testing.T) {
 	if os.Getenv("XLATE_LEAN") != "1" {
 		t.Skip("set XLATE_LEAN=1 to compile the golden files with Lean")
